@@ -54,10 +54,10 @@ MULTI = {"P_ADD", "P_SUB", "P_MUL", "P_IADD", "P_ISUB", "P_LINCOMB", "O_APPLY", 
 DEATH_KINDS = {"C03": ARITH, "C08": MULTI}
 PLACE = ["place_nested", "place_partial", "place_touch", "place_gap", "place_empty", "place_identical"]
 RELEVANT_PROBES = {
-    "C03": ["c03_compared", "mixed_order", "self_iadd", "post_failure_reuse"] + PLACE,
+    "C03": ["c03_compared", "mixed_order", "self_iadd", "post_failure_reuse", "alias_scalar"] + PLACE,
     "C08": ["xgrid_call", "xgrid_refused", "eqgrid_distinct", "twin_compared"] + PLACE,
     "C09": ["idx_in", "idx_edge", "idx_huge", "idx_wrap", "factor_inside", "moved_from_reuse", "post_failure_reuse",
-            "sweep_points", "last_owner_task"] + PLACE,
+            "sweep_points", "last_owner_task", "pin_taken", "pin_checked"] + PLACE,
     "C10": ["moved_from_reuse", "post_failure_reuse", "self_assign", "self_iadd", "sweep_points"],
     "C14": ["sweep_points", "post_failure_reuse", "self_assign", "self_iadd", "eqgrid_distinct"],
     "C18": ["msg_sent", "msg_recv", "last_owner_task"],
